@@ -66,7 +66,7 @@ PROPS['C02'] = dict(
 PROPS['C17'] = dict(
     modules=['Vivid.Props.C17'],
     gens=[],
-    engines=[dict(name='view', must_hit=['merge:changed', 'merge:unchanged', 'skew-rule', 'non-wf-case'] + ['adopt:%s:strategy%d:%s:skew0' % (c, st, r) for c in ('concurrent', 'ordered') for st in (0, 1, 2) for r in ('remote-epoch-higher', 'remote-epoch-lower', 'epoch-eq')])],
+    engines=[dict(name='view', must_hit=['touch', 'merge:changed', 'merge:unchanged', 'skew-rule', 'non-wf-case'] + ['adopt:%s:strategy%d:%s:skew0' % (c, st, r) for c in ('concurrent', 'ordered') for st in (0, 1, 2) for r in ('remote-epoch-higher', 'remote-epoch-lower', 'epoch-eq')])],
     rule='view: three views built by random op sequences (AddMember incl. generation bumps and status changes, RemoveMember, IncrementVersion, direct epoch/timestamp/protocol) '
          'over <= 4 (thorough 5) node ids; then all merge orders of two and three views on snapshots (A<-B, B<-A, (A<-B)<-C, A<-(B<-C), self-merge), for every '
          'concurrent-version strategy and both outcomes of the clock-skew rule; dump of the whole view compared with the model after every op. '
@@ -146,6 +146,10 @@ PROPS['C03']['modules'] = ['Vivid.Props.C03', 'Vivid.Props.C03Global', 'Vivid.Pr
 PROPS['C06']['engines'].append(dict(name='killorder', nomodel=True, only=r'NOT-RELEASED|CHILDREN-FIRST|HARNESS|PANIC|FATAL', must_hit=['variant:0', 'variant:3', 'variant:7', 'variant:15']))
 # C19 shares the kill-order probe: subscriptions of a re-created namesake while the dead instance is still cleaning up
 PROPS['C19']['engines'].append(dict(name='killorder', nomodel=True, only=r'SUBSCRIPTION-LOST|SUBSCRIPTION-LEFT|HARNESS|PANIC|FATAL', must_hit=['variant:0', 'variant:3', 'variant:7', 'variant:15']))
+# ... and a real-time probe of the ordering clause with large fan-outs (real goroutines, no model)
+PROPS['C19']['rule'] = PROPS['C19'].get('rule', AS_RULE) + (' esrt (monitor only, real system): 3 / 8 / 9 / 12 / 40 subscribers of one type, one or two publishers publishing 100-300 events back to back from one handler: '
+                                  'every subscriber receives every publisher\'s events exactly once and in publication order.')
+PROPS['C19']['engines'].append(dict(name='esrt', nomodel=True, must_hit=['es:3-subscribers', 'es:9-subscribers', 'es:12-subscribers', 'es:40-subscribers']))
 PROPS['C06']['rule'] = AS_RULE + (' killorder (monitor only): parent + fixed-name child (optionally with a grandchild, a watcher, poison, two ActorKilledEvent subscribers) under the baton with extra scheduling points after each '
                                   'notification group of the termination clean-up (yield sites kh.*), seeded random schedules (12 / thorough 200 per variant x 16 variants): whenever a parent or watcher observes OnKilled{X}, '
                                   'that very actor X and all its doomed descendants are already unregistered and the parent can re-create the child under the same name.')
@@ -166,7 +170,7 @@ PROPS['C20'] = dict(
 PROPS['C07'] = dict(
     modules=['Vivid.Props.C07'],
     gens=[],
-    engines=[dict(name='sysfsm', must_hit=['ret:ok', 'ret:already-started', 'ret:already-stopped', 'ret:not-started', 'conc', 'census', 'slowstop', 'busystop', 'selfstop', 'cancel-before-start'])],
+    engines=[dict(name='sysfsm', must_hit=['ret:ok', 'ret:already-started', 'ret:already-stopped', 'ret:not-started', 'conc', 'census', 'slowstop', 'busystop', 'selfstop', 'zerostop', 'cancel-before-start'])],
     rule='sysfsm: real actor.System instances with real goroutines. (1) every sequential history of <= 3 (thorough 4) calls from {Start, Stop, cancel the context}: return value and status compared with the model after each call, '
          'each call under a 1.5 s watchdog (BLOCKED / LOCKED are observations); (2) every pair of calls released concurrently after the prefixes [], [Start], [Start, Stop], repeated: every call must return, at most one Start / one Stop returns nil; '
          '(3) goroutine census (frames under vivid / go-quartz) after a Start/Stop cycle. Non-trivial = every case; distinct = distinct call lists.',
@@ -259,7 +263,7 @@ PROPS['C10'] = dict(
 PROPS['C15'] = dict(
     modules=['Vivid.Props.C15', 'Vivid.Tie.Registry'],
     gens=['registry'],
-    engines=[dict(name='transp', must_hit=['op:tell', 'op:tellv', 'op:ask', 'op:kill', 'op:poison', 'op:watch', 'op:unwatch', 'op:watch-twin', 'op:unwatch-twin', 'op:ping', 'op:pipe-ok', 'op:pipe-fail', 'op:pipe-err', 'op:kill-busy', 'op:poison-busy', 'op:watch-stopping', 'loc:remote', 'cfg:codec', 'cfg:registered'])],
+    engines=[dict(name='transp', must_hit=['op:tell', 'op:tellv', 'op:ask', 'op:kill', 'op:poison', 'op:watch', 'op:unwatch', 'op:watch-twin', 'op:unwatch-twin', 'op:ping', 'op:pipe-ok', 'op:pipe-fail', 'op:pipe-err', 'op:kill-busy', 'op:poison-busy', 'op:watch-stopping', 'op:tell-respawned', 'loc:remote', 'cfg:codec', 'cfg:registered'])],
     rule='transp: two real systems over loopback TCP, once with a user Codec and once with RegisterCustomMessage; every ActorRef-taking operation (Tell of a pointer and of a value message, Ask/Reply, Kill graceful and poison, Watch, Unwatch, Ping, '
          'PipeTo with success and with failure results x local/remote forwarder) is executed from inside an actor against a local and against a remote target. Observation: the effects seen by the actors involved (messages with sender role, OnKill fields, '
          'termination, OnKilled.Ref, Pong, PipeResult content; references are rendered by role and checked to carry the address of the system the actor lives on) and the built-in message types the remoting layer reports as sent. Compared with the model, '
